@@ -184,9 +184,14 @@ def judge(case, res, text, line_of, layout, span=None):
     d = diags[0]
     if cfg["kind"] == "count":
         data = d.get("data") or {}
-        if data.get("actual") != exp["actual"] or data.get("op") != cfg["op"] or data.get("expected") != cfg["n"]:
-            return "bad", "line-count data %s, expected actual=%s op=%s expected=%s" % (
-                data, exp["actual"], cfg["op"], cfg["n"])
+        ok_data = data.get("actual") == exp["actual"] and data.get("op") == cfg["op"] and data.get("expected") == cfg["n"]
+        msg = d.get("message", "")
+        # (where the three values are carried is the implementation's choice: structured data, or the message text)
+        ok_msg = not any(k in data for k in ("actual", "op", "expected")) and cfg["op"] in msg and \
+            re.search(r"(?<![0-9])%d(?![0-9])" % exp["actual"], msg) and re.search(r"(?<![0-9])%d(?![0-9])" % cfg["n"], msg)
+        if not (ok_data or ok_msg):
+            return "bad", "line-count diagnostic %s / %r does not carry actual=%s op=%s bound=%s" % (
+                data, msg[:120], exp["actual"], cfg["op"], cfg["n"])
         return "ok", None
     j = exp["at"]
     want_line = line_of(j)
